@@ -87,16 +87,17 @@ def getu4 (data : Bytes) (off : Nat) : Option Nat :=
     | some a, some b, some c, some d => some (((a * 16 + b) * 16 + c) * 16 + d)
     | _, _, _, _ => none
 
-/-- `utf8.EncodeRune` for a rune given as a natural number (surrogates and out-of-range values encode U+FFFD) -/
+/-- `utf8.EncodeRune` for a rune given as a natural number (surrogates and out-of-range values encode U+FFFD);
+    written with `/` and `%` instead of shifts and masks (same function) so that `omega` can reason about it -/
 def utf8Encode (r : Nat) : List UInt8 :=
   if r < 0x80 then [UInt8.ofNat r]
-  else if r < 0x800 then [UInt8.ofNat (0xC0 ||| (r >>> 6)), UInt8.ofNat (0x80 ||| (r &&& 0x3F))]
+  else if r < 0x800 then [UInt8.ofNat (0xC0 + r / 64), UInt8.ofNat (0x80 + r % 64)]
   else if (0xD800 ≤ r && r < 0xE000) || r > 0x10FFFF then [0xEF, 0xBF, 0xBD]
   else if r < 0x10000 then
-    [UInt8.ofNat (0xE0 ||| (r >>> 12)), UInt8.ofNat (0x80 ||| ((r >>> 6) &&& 0x3F)), UInt8.ofNat (0x80 ||| (r &&& 0x3F))]
+    [UInt8.ofNat (0xE0 + r / 4096), UInt8.ofNat (0x80 + r / 64 % 64), UInt8.ofNat (0x80 + r % 64)]
   else
-    [UInt8.ofNat (0xF0 ||| (r >>> 18)), UInt8.ofNat (0x80 ||| ((r >>> 12) &&& 0x3F)),
-     UInt8.ofNat (0x80 ||| ((r >>> 6) &&& 0x3F)), UInt8.ofNat (0x80 ||| (r &&& 0x3F))]
+    [UInt8.ofNat (0xF0 + r / 262144), UInt8.ofNat (0x80 + r / 4096 % 64),
+     UInt8.ofNat (0x80 + r / 64 % 64), UInt8.ofNat (0x80 + r % 64)]
 
 def isSurrogate (r : Nat) : Bool := 0xD800 ≤ r && r < 0xE000
 
